@@ -500,3 +500,56 @@ def exec_big(model, naming):
            'nvarpoints': len(vps) if isinstance(vps, dict) else -1}
     ret['errors'] = errors + bad
     return {'a': 'ExecBig', 'args': {}, 'out': 'value', 'ret': ret}
+
+
+def exec_chain(n):
+    """A chain of n mandatory features: closed-form results (robustness at depth)."""
+    from flamapy.metamodels.fm_metamodel.models import FeatureModel
+    root = Feature('c0')
+    cur = root
+    for i in range(1, n):
+        nxt = Feature('c%d' % i)
+        cur.add_relation(Relation(cur, [nxt], 1, 1))
+        cur = nxt
+    model = FeatureModel(root)
+    ret = {}
+
+    def run(key, op, post, fobj=None):
+        o = new_op(op)
+        try:
+            with time_limit(60):
+                if fobj is not None:
+                    o.set_feature(fobj)
+                res = o.execute(model).get_result()
+            ret[key + '_out'] = 'value'
+            post(res)
+        except (Exception, CallTimeout, RecursionError) as exc:
+            ret[key + '_out'] = 'error:' + errname(exc)
+    ret.update(estimate=0, core_len=0, core_distinct=0, atomic_sets=0, atomic_first=0, depth=0, leaves=0, anc_len=0)
+    run('estimate', 'estimate', lambda r: ret.update(estimate=r if isinstance(r, int) and abs(r) < I32 else -1))
+    run('core', 'core', lambda r: ret.update(core_len=len(r), core_distinct=len({f.name for f in r})))
+    run('atomic', 'atomic', lambda r: ret.update(atomic_sets=len(r), atomic_first=len(r[0]) if r else 0))
+    run('depth', 'depth', lambda r: ret.update(depth=r if isinstance(r, int) else -1))
+    run('leaves', 'leaves', lambda r: ret.update(leaves=len(r)))
+    run('anc', 'ancestors', lambda r: ret.update(anc_len=len(r)), cur)
+    return {'a': 'ExecChain', 'args': {'n': n}, 'out': 'value', 'ret': ret}
+
+
+def shape_model(nroot, extra):
+    """Root with `nroot` optional children; the first len(extra) of them get extra[i] children each."""
+    from flamapy.metamodels.fm_metamodel.models import FeatureModel
+    root = Feature('s0')
+    kids = []
+    k = 0
+    for i in range(nroot):
+        k += 1
+        f = Feature('s%d' % k)
+        kids.append(f)
+        root.add_relation(Relation(root, [f], 0, 1))
+    for i, n in enumerate(extra):
+        sub = []
+        for j in range(n):
+            k += 1
+            sub.append(Feature('s%d' % k))
+        kids[i].add_relation(Relation(kids[i], sub, 1, len(sub)) if len(sub) > 1 else Relation(kids[i], sub, 1, 1))
+    return FeatureModel(root)
